@@ -235,8 +235,11 @@ func Cmp(ei, ej Object) int {
 	case STRING:
 		return cmp.Compare(ei.(String).Value, ej.(String).Value)
 
-	// RETURN, QUOTE, MACRO, ANY aren't expected to be compared.
-	case RETURN, QUOTE, MACRO, UNKNOWN, ANY:
+	case QUOTE:
+		// quote() values are reachable from programs (==, map keys, min/max): order them by their printed form.
+		return cmp.Compare(ei.Inspect(), ej.Inspect())
+	// RETURN, MACRO, ANY aren't expected to be compared.
+	case RETURN, MACRO, UNKNOWN, ANY:
 		panic(fmt.Sprintf("Unexpected type in Cmp: %s", ti))
 	}
 	return 1
